@@ -6,6 +6,8 @@ import (
 	"encoding/json"
 	"fmt"
 	"math/rand"
+	"reflect"
+	"strconv"
 	"strings"
 
 	flags "github.com/jessevdk/go-flags"
@@ -18,11 +20,17 @@ type ClosestScn struct {
 	Hidden []bool `json:"hidden"`
 	// the Hidden marks are public fields: with HasBefore the commands carry the marks Before during a first pair of failing
 	// parses on the same parser, and the marks Hidden during the judged one
-	HasBefore bool        `json:"hasBefore"`
-	Before    []bool      `json:"before"`
-	HasWord   bool        `json:"hasWord"`
-	Word      S           `json:"word"`
-	Obs       *ClosestObs `json:"obs,omitempty"`
+	HasBefore bool   `json:"hasBefore"`
+	Before    []bool `json:"before"`
+	// ByTag: the commands are declared by struct tags (command:"name" [hidden:"text"]) instead of AddCommand; a command is
+	// hidden when its hidden tag is present with ANY non-empty text (HiddenTag[i]; also "no", "0", "false")
+	ByTag     bool `json:"byTag"`
+	HiddenTag []S  `json:"hiddenTag"`
+	// DD: the vector is ["--", word] on a parser with PassDoubleDash (the diagnosis is about the first remaining argument)
+	DD      bool        `json:"dd"`
+	HasWord bool        `json:"hasWord"`
+	Word    S           `json:"word"`
+	Obs     *ClosestObs `json:"obs,omitempty"`
 }
 
 type ClosestObs struct {
@@ -54,23 +62,62 @@ func splitList(list string) []S {
 
 func runClosest(sc *ClosestScn) *ClosestObs {
 	obs := &ClosestObs{Names: []S{}}
-	p := flags.NewNamedParser("app", flags.None)
+	popts := flags.None
+	if sc.DD {
+		popts = flags.PassDoubleDash
+	}
+	p := flags.NewNamedParser("app", popts)
 	var cmds []*flags.Command
-	for i, n := range sc.Names {
-		c, err := p.AddCommand(n.String(), "", "", &nopCmd{})
+	if sc.ByTag && len(sc.HiddenTag) == len(sc.Names) {
+		var fs []reflect.StructField
+		for i, n := range sc.Names {
+			tag := "command:" + strconv.Quote(n.String())
+			if ht := sc.HiddenTag[i].String(); ht != "" {
+				tag += " hidden:" + strconv.Quote(ht)
+			}
+			fs = append(fs, reflect.StructField{Name: "C" + itoa(i), Type: reflect.TypeOf(nopCmd{}), Tag: reflect.StructTag(tag)})
+		}
+		var err error
+		func() {
+			defer func() {
+				if r := recover(); r != nil {
+					err = fmt.Errorf("panic: %v", r)
+				}
+			}()
+			_, err = p.AddGroup("Application Options", "", reflect.New(reflect.StructOf(fs)).Interface())
+		}()
 		if err != nil {
 			obs.ErrType = "setup"
 			return obs
 		}
-		c.Hidden = sc.Hidden[i]
-		cmds = append(cmds, c)
+		cmds = p.Commands()
+		for i, c := range cmds {
+			if i < len(sc.Hidden) && sc.Hidden[i] {
+				c.Hidden = true
+			}
+		}
+	} else {
+		for i, n := range sc.Names {
+			c, err := p.AddCommand(n.String(), "", "", &nopCmd{})
+			if err != nil {
+				obs.ErrType = "setup"
+				return obs
+			}
+			c.Hidden = sc.Hidden[i]
+			cmds = append(cmds, c)
+		}
 	}
 	var args []string
 	if sc.HasWord {
 		args = []string{sc.Word.String()}
 	}
+	if sc.DD {
+		args = append([]string{"--"}, args...)
+	}
 	if sc.HasBefore && len(sc.Before) == len(cmds) {
+		declared := make([]bool, len(cmds))
 		for i, c := range cmds {
+			declared[i] = c.Hidden
 			c.Hidden = sc.Before[i]
 		}
 		func() {
@@ -79,7 +126,7 @@ func runClosest(sc *ClosestScn) *ClosestObs {
 			p.ParseArgs(args)
 		}()
 		for i, c := range cmds {
-			c.Hidden = sc.Hidden[i]
+			c.Hidden = declared[i] // back to what the declaration gave (tag and field)
 		}
 	}
 	var err error
@@ -224,6 +271,19 @@ func genClosest(r *rand.Rand, id int) *ClosestScn {
 		sc.Names = append(sc.Names, toS(w))
 		sc.Hidden = append(sc.Hidden, chance(r, 0.2))
 	}
+	sc.HiddenTag = []S{}
+	for range names {
+		sc.HiddenTag = append(sc.HiddenTag, S{})
+	}
+	if chance(r, 0.25) {
+		sc.ByTag = true
+		for i := range names {
+			if chance(r, 0.4) {
+				sc.HiddenTag[i] = toS(pick(r, []string{"yes", "1", "true", "no", "0", "false", "x"}))
+			}
+		}
+	}
+	sc.DD = chance(r, 0.15)
 	sc.Before = []bool{}
 	if chance(r, 0.3) {
 		sc.HasBefore = true
